@@ -243,8 +243,11 @@ theorem timer_kept_by_backlog (g : Cfg) (s : S) (op : Op) (ht : s.wTimer = true)
     (hop : op ≠ .setWriteDeadline true) (ho : (step g s op).closed = false) (hw : (step g s op).wl ≠ []) :
     (step g s op).wTimer = true := by
   cases op with
-  | write b k =>
-    simp only [step] at ho hw ⊢
+  | write b ks =>
+    replace ho : (write g s b (directAns ks)).1.closed = false := ho
+    replace hw : (write g s b (directAns ks)).1.wl ≠ [] := hw
+    show (write g s b (directAns ks)).1.wTimer = true
+    generalize directAns ks = k at ho hw ⊢
     unfold write at ho hw ⊢
     split
     · exact ht
@@ -253,8 +256,11 @@ theorem timer_kept_by_backlog (g : Cfg) (s : S) (op : Op) (ht : s.wTimer = true)
     · rename_i h1 h2
       rw [if_neg h1, if_neg h2] at ho hw
       rw [(finishCall_timer g _).2 ho hw, wT_writeInner, ht]
-  | writev bs k =>
-    simp only [step] at ho hw ⊢
+  | writev bs ks =>
+    replace ho : (writev g s bs (directAns ks)).1.closed = false := ho
+    replace hw : (writev g s bs (directAns ks)).1.wl ≠ [] := hw
+    show (writev g s bs (directAns ks)).1.wTimer = true
+    generalize directAns ks = k at ho hw ⊢
     rw [writev_eq] at ho hw ⊢
     split
     · exact ht
@@ -263,21 +269,28 @@ theorem timer_kept_by_backlog (g : Cfg) (s : S) (op : Op) (ht : s.wTimer = true)
     · rename_i h1 h2
       rw [if_neg h1, if_neg h2] at ho hw
       rw [(finishCall_timer g _).2 ho hw, wT_writevCore, ht]
-  | sendfile off len ks => simp only [step]; rw [wT_sendfile, ht]
+  | sendfile off len ks =>
+    show (sendfile g s off len ks).1.wTimer = true
+    rw [wT_sendfile, ht]
   | register =>
-    simp only [step, register]
+    show (register g s).wTimer = true
+    unfold register
     split
     · exact ht
     · split
       · unfold pAddRead; split <;> (rw [wT_kctl]; exact ht)
       · unfold pAddReadWrite; rw [wT_kctl]; exact ht
   | registerDial =>
-    simp only [step, registerDial]
+    show (registerDial g s).wTimer = true
+    unfold registerDial
     split
     · exact ht
     · unfold pAddReadWrite; rw [wT_kctl]; exact ht
-  | evTake o i e ks =>
-    simp only [step] at ho hw ⊢
+  | evTake o0 i e ks =>
+    replace ho : (evTake g s (o0 && (g.mode != .et || s.edgeDue)) i e ks).closed = false := ho
+    replace hw : (evTake g s (o0 && (g.mode != .et || s.edgeDue)) i e ks).wl ≠ [] := hw
+    show (evTake g s (o0 && (g.mode != .et || s.edgeDue)) i e ks).wTimer = true
+    generalize (o0 && (g.mode != .et || s.edgeDue)) = o at ho hw ⊢
     unfold evTake at ho hw ⊢
     simp only at ho hw ⊢
     split
@@ -393,7 +406,7 @@ theorem timer_expire_needs_timer (s : S) (ht : s.wTimer = false) : timerExpire s
 /-- The fatal-error branches (`c.closed = true` in Write / Writev / Sendfile / flush) do not stop the timers:
     a closed connection can keep a set timer until it fires — into a closed conn (`timer_fire_closed_noop`). -/
 theorem timer_survives_error_close :
-    let s := run g0 init [.register, .setWriteDeadline false, .write [1, 2, 3] .fail]
+    let s := run g0 init [.register, .setWriteDeadline false, .write [1, 2, 3] [.fail]]
     s.closed = true ∧ s.wTimer = true ∧ (timerExpire s).firePending = true ∧
     (timerFire (timerExpire s)).onClose = s.onClose ∧ (timerFire (timerExpire s)).firePending = false := by
   decide
@@ -402,21 +415,21 @@ theorem timer_survives_error_close :
 
 /-- deadline set, write leaves a backlog (timer kept), the poller drains it (timer cleared) -/
 example :
-    let s1 := run g0 init [.register, .setWriteDeadline false, .write [1, 2, 3] (.wrote 1)]
+    let s1 := run g0 init [.register, .setWriteDeadline false, .write [1, 2, 3] [.wrote 1]]
     let s2 := flush g0 s1 [.wrote 5]
     s1.wTimer = true ∧ s1.wl.length = 1 ∧ s2.closed = false ∧ s2.wl.length = 0 ∧ s2.wTimer = false := by decide
 
 /-- deadline set, a complete direct write clears it -/
-example : (run g0 init [.register, .setWriteDeadline false, .write [1, 2, 3] (.wrote 3)]).wTimer = false := by decide
+example : (run g0 init [.register, .setWriteDeadline false, .write [1, 2, 3] [.wrote 3]]).wTimer = false := by decide
 
 /-- deadline expires with a backlog: the two steps of the fire close the connection -/
 example :
-    let s := run g0 init [.register, .setWriteDeadline false, .write [1, 2, 3] .eagain, .timerExpire, .timerFire, .teardown]
+    let s := run g0 init [.register, .setWriteDeadline false, .write [1, 2, 3] [.eagain], .timerExpire, .timerFire, .teardown]
     s.closed = true ∧ s.wTimer = false ∧ s.onClose = 1 := by decide
 
 /-- renewal racing the callback: the goroutine has started, the deadline is renewed, the close still happens -/
 example :
-    let s := run g0 init [.register, .setWriteDeadline false, .write [1, 2, 3] .eagain, .timerExpire,
+    let s := run g0 init [.register, .setWriteDeadline false, .write [1, 2, 3] [.eagain], .timerExpire,
       .setWriteDeadline false, .timerFire]
     s.closed = true := by decide
 
